@@ -80,6 +80,8 @@ def classify(rc, out):
     t = re.search(r"ThreadSanitizer: ([\w -]+)", out)
     if t and rc != 0:
         return ("tsan:" + t.group(1).strip().replace(" ", "-"), None, t.group(0))
+    if rc == 76:
+        return ("ubsan", None, "undefined behaviour reported by UBSan")
     if rc == 78:
         return ("terminate", None, "std::terminate called")
     if rc == 79:
@@ -282,6 +284,23 @@ def determinism_gate(exe, engine, tier, seed, worker_texts):
             "layouts": "16 worker processes vs 1 process"}
 
 
+def locate_death(exe, engine, tier, seed, w, nworkers):
+    cmd = [exe, "--seed", str(seed), "--runs", str(engine["runs"][tier]), "--budget", "120", "--announce",
+           "--worker", str(w), str(nworkers)] + (["--thorough"] if tier == "thorough" else [])
+    try:
+        r = subprocess.run(cmd, stdout=subprocess.PIPE, stderr=subprocess.STDOUT, text=True, env=env(),
+                           errors="replace", timeout=300)
+    except subprocess.TimeoutExpired:
+        return None
+    if r.returncode == 0:
+        return None
+    runs = re.findall(r"^R (\d+)$", r.stdout, re.M)
+    if not runs:
+        return None
+    return {"run": int(runs[-1]), "cls": "died", "detail": "located by announced re-execution (exit %s)" % r.returncode,
+            "plan": None, "died": True}
+
+
 def parse_worker(text):
     stats, cands, plans = None, [], []
     lines = text.splitlines()
@@ -452,10 +471,17 @@ def run(pid, P, t0, tmpdir):
             for c in cands:
                 c["engine"] = e
             all_cands += cands
-            if stats is None:
-                if not cands:
+            if stats is None and not cands:
+                # the worker died and the death callback did not name the run: execute its share once
+                # more with every run announced; the last announced run is the candidate
+                located = locate_death(exe, e, tier, seed, w, nworkers)
+                if located is None:
                     log("INFRA worker %d of %s died without a result (rc=%s):\n%s" % (w, e["id"], rc, text[-2000:]))
                     return 2
+                located["engine"] = e
+                all_cands.append(located)
+                continue
+            if stats is None:
                 continue
             est["executed"] += stats["executed"]
             for k in ("executed", "nontrivial", "steps", "events", "enum_plans", "enum_runs"):
